@@ -253,6 +253,8 @@ def run(argv, cwd=None, env=None, timeout=60, stdin=None, home=None, classify_it
         r.rc = rc
     if classify_it:
         classify(r)
+        if r.key:
+            r.key = r.key.replace(" ", "_")     # keys are single tokens (known_findings.txt is space separated)
     return r
 
 
